@@ -1223,6 +1223,11 @@ class C16(SimpleSpec):
             got = sum(len(p) - 1 for p in c.get("audits", []))
             if exp != got:
                 out.append(f"the aggregate holds {got} audits, the sources have {exp} importable ones")
+            for tbl, key, what in (("wildcard_audits", "wild", "wildcard audits"), ("trusted", "trusted", "trusted entries")):
+                exp = sum(len(l) for s in case["sources"] for l in structs[s["url"]].get(tbl, {}).values())
+                got = sum(len(p) - 1 for p in c.get(key, []))
+                if exp != got:
+                    out.append(f"the aggregate holds {got} {what}, the sources have {exp}")
             ex = o.get("extra", {})
             if not ex.get("reloads") or not ex.get("reloads_strict"):
                 out.append("the aggregated file does not load back as the same audits file")
@@ -1678,6 +1683,16 @@ class C14(Spec):
                 if norm_values(o["values"]) != norm_values(o["values_reread"]):
                     res["oracle_failures"].append({"id": cid, "what": "the store read back differs from the store written (as multisets of entries)",
                                                    "finding": None, "case": gen.strip_struct(case)})
+                if o.get("policies_after") is not None and o["policies_after"] != o["policies_before"]:
+                    lost = [p[:2] for p in o["policies_before"] if p not in o["policies_after"]]
+                    res["oracle_failures"].append({"id": cid, "what": f"policy entries change across write + read (typed values, not their serialisation): {lost[:4]}",
+                                                   "finding": None, "case": gen.strip_struct(case)})
+                if "store_struct" in case and "policies_before" in o:
+                    want = sorted((k.partition(":")[0], k.partition(":")[2] or "") for k in case["store_struct"]["policy"])
+                    got = sorted((p[0], p[1] or "") for p in o["policies_before"])
+                    if want != got:
+                        res["oracle_failures"].append({"id": cid, "what": f"policy table read as {got[:6]}, the file has {want[:6]}", "finding": None,
+                                                       "case": gen.strip_struct(case)})
                 if flags["bytes_equal_unchecked"] != "1":
                     res["oracle_failures"].append({"id": cid, "what": "writing what was just read does not reproduce the same bytes", "finding": None,
                                                    "case": gen.strip_struct(case)})
